@@ -273,6 +273,174 @@ def unit_kil(unit):
     return _explore(body, unit, max_paths=30000, wall_s=800)
 
 
+class MemberList:
+    """Result of `_active_columns()` as given by its contract (unit_active_columns): the ascending list of
+    exactly those columns c whose membership term holds.  Membership of a concrete column is a symbolic
+    truth value (the engine forks on it); iteration realises the list column by column."""
+
+    def __init__(self, member):
+        self.member = dict(member)
+
+    def __contains__(self, c):
+        if core.is_sym(c):
+            raise core.Unsupported("symbolic column looked up in the active-column set")
+        t = self.member.get(c)
+        return False if t is None else bool(SymBool(t))
+
+    def __iter__(self):
+        for c in sorted(self.member):
+            if bool(SymBool(self.member[c])):
+                yield c
+
+
+def _set_shim(x=()):
+    """`set(...)` inside pce500.keyboard_matrix: identity on a MemberList (a set of the same members),
+    the builtin otherwise."""
+    return x if isinstance(x, MemberList) else set(x)
+
+
+def _act_terms(kol, koh, high):
+    bits = T(kol) | (T(koh) << 8)
+    return {c: ((z3.LShR(bits, c) & 1) == (1 if high else 0)) for c in range(16)}
+
+
+def unit_active_columns(unit):
+    """Contract of `_active_columns` (and get_active_columns): the ascending list of the columns whose
+    KOL/KOH bit is at the active level.  KOL high nibble is the work unit (all 16 are run: a complete
+    case split), the other 8 bits are symbolic; KOH < 16 is the register invariant (established by
+    __init__/write_koh/load_state, proved in unit_koh_invariant)."""
+    KM = _setup()
+    hi, high = unit["kol_hi"], unit["active_high"]
+
+    def body(eng):
+        kb = KM.KeyboardMatrix(columns_active_high=high)
+        lo = eng.fresh("kol_lo", 4)
+        koh = eng.fresh("koh", 4)
+        kb.kol = (hi << 4) | lo
+        kb.koh = koh
+        cols = list(kb._active_columns())
+        act = _act_terms(kb.kol, kb.koh, high)
+        P = lambda n, c, d=None: eng.prove(n, _b(c), detail=d)
+        for c in range(16):
+            P(f"active-columns:{c}", SymBool(act[c] == z3.BoolVal(c in cols)), "column c listed <=> its strobe bit is at the active level")
+        P("active-columns:ascending-no-duplicates", all(a < b for a, b in zip(cols, cols[1:])))
+        P("active-columns:range", all(0 <= c < 16 for c in cols))
+        P("get_active_columns:same", kb.get_active_columns() == cols)
+        return "cols"
+
+    return _explore(body, unit)
+
+
+def unit_koh_invariant(unit):
+    """KOL is a byte and KOH a nibble after the constructor, write_kol/write_koh with any value, and
+    load_state with any stored value (the precondition of unit_active_columns / unit_kil_all)."""
+    KM = _setup()
+    high = unit["active_high"]
+
+    def body(eng):
+        kb = KM.KeyboardMatrix(columns_active_high=high)
+        P = lambda n, c, d=None: eng.prove(n, _b(c), detail=d)
+        P("init:kol-byte", 0 <= kb.kol <= 0xFF)
+        P("init:koh-nibble", 0 <= kb.koh <= 0x0F)
+        v = eng.fresh("v", 32)
+        kb._compute_kil = lambda **kw: 0     # the latch refresh is covered by unit_kil_all
+        kb.write_kol(v)
+        P("write_kol:byte", SymBool(T(kb.kol) == (T(v) & 0xFF)))
+        kb.write_koh(v)
+        P("write_koh:nibble", SymBool(T(kb.koh) == (T(v) & 0x0F)))
+        snap = KM.KeyboardMatrix(columns_active_high=high).snapshot_state()
+        snap["kol"], snap["koh"] = eng.fresh("skol", 32), eng.fresh("skoh", 32)
+        kb.load_state(snap)
+        P("load_state:kol-byte", SymBool(T(kb.kol) == (T(snap["kol"]) & 0xFF)))
+        P("load_state:koh-nibble", SymBool(T(kb.koh) == (T(snap["koh"]) & 0x0F)))
+        return "inv"
+
+    return _explore(body, unit)
+
+
+def unit_kil_all(unit):
+    """_compute_kil / read_kil / peek_kil with EVERY key in an arbitrary state (all debounced/pressed flags
+    and press counters symbolic), all KOL/KOH values, both polarities: the loop over the key table is
+    verified by the for-each rule with the fold invariant
+        value == OR_{j<k} (shown_j ? 1 << row_j : 0)
+    and `_active_columns` is cut by its contract (unit_active_columns).  Post: row bit r <=> some key of
+    row r on a strobed column is debounced (peek: or about to be)."""
+    import types
+    from symx import astpass
+    KM = _setup()
+    high, entry = unit["active_high"], unit["entry"]
+
+    def body(eng):
+        KM.set = _set_shim
+        kb = KM.KeyboardMatrix(columns_active_high=high)
+        kol, koh = eng.fresh("kol", 8), eng.fresh("koh", 4)
+        kb.kol, kb.koh = kol, koh
+        tp = eng.fresh_int("press_threshold")
+        eng.assume(TI(tp) >= 1)
+        kb.press_threshold = tp
+        act = _act_terms(kol, koh, high)
+        kb._active_columns = lambda: MemberList(act)
+        fs = {}
+        for name, st in kb._key_states.items():
+            st.debounced, st.pressed = eng.fresh_bool("deb_" + name), eng.fresh_bool("prs_" + name)
+            st.press_ticks = eng.fresh_int("pt_" + name)
+            fs[id(st)] = (st.debounced, st.pressed, st.press_ticks)
+        calls = []
+
+        def shown(st, pending):
+            d, p, pt = fs[id(st)]
+            s = _b(d)
+            if pending:
+                s = z3.Or(s, z3.And(_b(p), TI(pt) + 1 >= TI(tp)))
+            return z3.And(act[st.location.column], s)
+
+        def fold(items, k, pending):
+            v = z3.BitVecVal(0, W)
+            for st in items[:k]:
+                v = v | z3.If(shown(st, pending), z3.BitVecVal(1 << st.location.row, W), z3.BitVecVal(0, W))
+            return v
+
+        def inv(L, k, items):
+            # row-wise form of  value == fold(items, k):  bit r of value <=> some shown key of row r among the first k
+            v, pend = T(L["value"]), bool(L["allow_pending"])
+            rows = []
+            for r in range(8):
+                rows.append(((z3.LShR(v, r) & 1) == 1) == z3.Or([shown(st, pend) for st in items[:k] if st.location.row == r] or [z3.BoolVal(False)]))
+            return SymBool(z3.And(z3.LShR(v, 8) == 0, *rows))
+
+        lo_k, hi_k = unit.get("positions", (0, 10 ** 6))
+        spec = astpass.ForEachSpec(inv, havoc={"value": lambda fresh: eng.fresh(f"havoc_value!{len(calls)}", 32)},
+                                   only=lambda k, n: lo_k <= k < hi_k or (k == n and hi_k >= n))
+        fresh = lambda n: eng.fresh(n + f"!{len(calls)}", 32)
+        new, ctx = astpass.rebuild_with_foreach(KM.KeyboardMatrix._compute_kil, {0: spec}, fresh, n_for=1)
+
+        def compute(self, **kw):
+            calls.append(kw)
+            if kw in calls[:-1] or (entry == "peek_kil" and not kw.get("allow_pending")):
+                # later calls with arguments already verified (here, or by the read_kil work unit): cut by the contract
+                r = eng.fresh(f"kil_contract!{len(calls)}", 8)
+                eng.assume(T(r) == (fold(list(self._key_states.values()), 10 ** 6, bool(kw.get("allow_pending"))) & 0xFF))
+                return r
+            return new(self, **kw)
+        kb._compute_kil = types.MethodType(compute, kb)
+        pending = entry == "peek_kil"
+        val = kb.read_kil() if entry == "read_kil" else kb.peek_kil() if entry == "peek_kil" else kb._compute_kil()
+        P = lambda n, c, d=None: eng.prove(n, _b(c), detail=d)
+        states = list(kb._key_states.values())
+        for r in range(8):
+            want = z3.Or([shown(st, pending) for st in states if st.location.row == r] or [z3.BoolVal(False)])
+            P(f"kil-all:row{r}", SymBool(((T(val) >> r) & 1 == 1) == want),
+              "row bit r <=> some key of row r on a strobed column is debounced" + (" or about to be" if pending else ""))
+        P("kil-all:byte", SymBool(z3.And(T(val) >= 0, T(val) <= 0xFF)))
+        if entry != "_compute_kil":
+            P("kil-all:latch", SymBool(T(kb._kil_latch) == T(val)) if entry == "read_kil" else True)
+        P("kil-all:keys-untouched", all(st.debounced is fs[id(st)][0] and st.pressed is fs[id(st)][1] and st.press_ticks is fs[id(st)][2] for st in states))
+        P("kil-all:strobes-untouched", kb.kol is kol and kb.koh is koh)
+        return "kil-all"
+
+    return _explore(body, unit, max_paths=30000, wall_s=800)
+
+
 def unit_scan(unit):
     """scan_tick: every key is stepped by the automaton (one symbolic key, the others idle), the events
     are returned, queued in order and counted; disabled scanning does nothing."""
